@@ -62,6 +62,11 @@ def gen(rng, tier):
         if not spec["cfg"].get("absence"):
             spec["cfg"]["absence"] = G.gen_absence(rng, 16, rng.randint(2, 6))
         spec["remove"] = True  # the absence steps are deleted from the finished logs: the relation must still hold entry by entry
+    if len(spec["model"].get("comps", [])) >= 2 and not spec["model"].get("comp_ctor_tasks") and rng.random() < 0.12:
+        # "any assignment of tasks to components": a task appended to a second component as well (both list it)
+        for t_ in spec["model"]["tasks"]:
+            if t_.get("comp") is not None and not t_.get("sub") and rng.random() < 0.4:
+                t_["also_comp"] = rng.choice([k_ for k_ in range(len(spec["model"]["comps"])) if k_ != t_["comp"]])
     return spec
 
 
